@@ -1,6 +1,6 @@
 (* C07 property theorems: statements only, each closed by `exact`, with Print Assumptions. *)
 From Coq Require Import ZArith QArith List Bool Lia Lqa.
-From QE Require Import Base.Num Base.LinAlg Base.Gauss C06.Model C07.Model C07.Proofs.
+From QE Require Import Base.Num Base.LinAlg Base.Gauss C06.Model C07.Model C07.ModelDerived C07.Proofs C07.ProofsDerived.
 Import ListNotations.
 Local Open Scope Q_scope.
 
@@ -96,6 +96,90 @@ Theorem C07_solve_correct : forall n m (A B X : list (list Q)),
   solve n m A B = Some X -> meq n m (mmul n n m A X) B.
 Proof. exact solve_correct. Qed.
 Print Assumptions C07_solve_correct.
+
+(* ---- derived solvers (models in ModelDerived.v, tied to the code by correspondence) ---- *)
+
+(* LQMarkov with m identical regimes: if all current value matrices equal a symmetric P (up to ==) and row i of
+   Pi sums to 1, the regime-i update of solve_discrete_riccati_system equals the LQ update of P, and the
+   regime-i policy of LQMarkov.stationary_values satisfies the LQ policy equation S1 F_i = S2 *)
+Theorem C07_lqmarkov_identical_regimes :
+  forall (m n k : nat) (beta : Q) (Pi Qm Rm A B N P F : list (list Q)) (Ps : list (list (list Q))),
+  msym k Qm -> msym n P ->
+  (forall l, (l < m)%nat -> meq n n (nth l Ps []) P) ->
+  meq k n (mmul k k n (lq_S1 n k beta Qm B P) F) (lq_S2 n k beta A B N P) ->
+  forall i, (i < m)%nat ->
+  forall d d' P' C jj Pi1,
+  sumQ m (fun l => get Pi i l) == 1 ->
+  update_values n k jj beta Qm Rm A B C N P d = Some (F, P', d') ->
+  mk_update_regime m n k beta Pi (repeat A m) (repeat B m) (repeat Qm m) (repeat Rm m) (repeat N m) Ps i = Some Pi1 ->
+  meq n n Pi1 P'.
+Proof. exact lqmarkov_identical_update. Qed.
+Print Assumptions C07_lqmarkov_identical_regimes.
+
+Theorem C07_lqmarkov_identical_policy :
+  forall (m n k : nat) (beta : Q) (Pi Qm A B N P : list (list Q)) (Ps : list (list (list Q))),
+  (forall l, (l < m)%nat -> meq n n (nth l Ps []) P) ->
+  forall i, (i < m)%nat -> forall Fi,
+  sumQ m (fun l => get Pi i l) == 1 ->
+  mk_F m n k beta Pi (repeat A m) (repeat B m) (repeat Qm m) (repeat N m) Ps i = Some Fi ->
+  meq k n (mmul k k n (lq_S1 n k beta Qm B P) Fi) (lq_S2 n k beta A B N P).
+Proof. exact lqmarkov_identical_policy. Qed.
+Print Assumptions C07_lqmarkov_identical_policy.
+
+(* one sweep of nnash (A, B1, B2 already scaled by sqrt(beta)): the new F_i satisfies the first-order condition
+   S1 F_i = S2 of player i's induced LQ problem  (Q_i, R_i + F_o'S_iF_o, A - B_oF_o, B_i, N = (W_i - F_o'M_i)')
+   at the current P_i, and the new P_i is that problem's update of P_i under F_i.  Hence at a fixed point of the
+   sweep P_i solves the induced Riccati equation with policy F_i, and C07_lq_stationary_no_better_sequence_partial
+   applies: F_i is the LQ best response to F_o *)
+Theorem C07_nnash_sweep_best_response :
+  forall n k1 k2 (A B1 B2 R1 R2 Q1 Q2 S1 S2 W1 W2 M1 M2 P1 P2 F1 F2 P1' P2' : list (list Q)),
+  nnash_sweep n k1 k2 A B1 B2 R1 R2 Q1 Q2 S1 S2 W1 W2 M1 M2 P1 P2 = Some (F1, F2, P1', P2') ->
+  let A1 := msub n n A (mmul n k2 n B2 F2) in
+  let N1 := mtr n k1 (msub n k1 W1 (mmul n k2 k1 (mtr k2 n F2) M1)) in
+  let Rb1 := madd n n R1 (mmul n k2 n (mtr k2 n F2) (mmul k2 k2 n S1 F2)) in
+  let A2 := msub n n A (mmul n k1 n B1 F1) in
+  let N2 := mtr n k2 (msub n k2 W2 (mmul n k1 k2 (mtr k1 n F1) M2)) in
+  let Rb2 := madd n n R2 (mmul n k1 n (mtr k1 n F1) (mmul k1 k1 n S2 F1)) in
+  meq k1 n (mmul k1 k1 n (lq_S1 n k1 1 Q1 B1 P1) F1) (lq_S2 n k1 1 A1 B1 N1 P1) /\
+  meq k2 n (mmul k2 k2 n (lq_S1 n k2 1 Q2 B2 P2) F2) (lq_S2 n k2 1 A2 B2 N2 P2) /\
+  (msym n P1 -> meq n n P1' (madd n n (msub n n Rb1 (mmul n k1 n (mtr k1 n (lq_S2 n k1 1 A1 B1 N1 P1)) F1)) (lq_S3 n 1 A1 P1))) /\
+  (msym n P2 -> meq n n P2' (madd n n (msub n n Rb2 (mmul n k2 n (mtr k2 n (lq_S2 n k2 1 A2 B2 N2 P2)) F2)) (lq_S3 n 1 A2 P2))).
+Proof. exact nnash_sweep_best_response. Qed.
+Print Assumptions C07_nnash_sweep_best_response.
+
+(* RBLQ: b_operator is the LQ update without cross term; d_operator returns P + PC X with (theta I - C'PC) X = (PC)' *)
+Theorem C07_rblq_b_operator_is_lq_update : forall n k (beta : Q) (Qm Rm A B P F P' : list (list Q)),
+  b_operator n k beta Qm Rm A B P = Some (F, P') ->
+  meq k n (mmul k k n (lq_S1 n k beta Qm B P) F) (lq_S2 n k beta A B (mzero k n) P) /\
+  meq n n P' (madd n n (msub n n Rm (mmul n k n (mtr k n (lq_S2 n k beta A B (mzero k n) P)) F)) (lq_S3 n beta A P)).
+Proof. exact rblq_b_operator_is_lq_update. Qed.
+Print Assumptions C07_rblq_b_operator_is_lq_update.
+
+Theorem C07_rblq_d_operator_formula : forall n j (theta : Q) (C P D : list (list Q)),
+  d_operator n j theta C P = Some D ->
+  exists X, meq j n (mmul j j n (msub j j (mscale j j theta (mid j))
+                                      (mmul j n j (mtr n j C) (mmul n n j P C))) X)
+                    (mtr n j (mmul n n j P C)) /\
+            D = madd n n P (mmul n j n (mmul n n j P C) X).
+Proof. exact rblq_d_operator_formula. Qed.
+Print Assumptions C07_rblq_d_operator_formula.
+
+(* robust_rule = LQ rule on D(P): if f is the stacked LQ policy computed (by the model's solve) at the value matrix
+   P for Ba = [B C], Qa = diag(Q, -beta theta I), and theta I - C'PC has a left inverse, then the top block F of f
+   satisfies (Q + beta B'D(P)B) F = beta B'D(P)A with D(P) the d_operator of P.  (That D(P) -> P as theta -> infinity
+   is a limit: not proved, oracle only.) *)
+Theorem C07_rblq_robust_rule_is_lq_on_DP :
+  forall n k j (beta theta : Q) (Qm A B C P f D Tinv : list (list Q)) (d : Q),
+  ~ beta == 0 -> msym n P ->
+  stationary_from_P n (k + j) 1 beta (rb_Qa k j beta theta Qm) A (rb_Ba n k j B C)
+                    (mzero n 1) (mzero (k + j) n) P = Some (f, d) ->
+  d_operator n j theta C P = Some D ->
+  meq j j (mmul j j j Tinv (msub j j (mscale j j theta (mid j))
+                                 (mmul j n j (mtr n j C) (mmul n n j P C)))) (mid j) ->
+  meq k n (mmul k k n (lq_S1 n k beta Qm B D) (mblock 0 0 k n f))
+          (lq_S2 n k beta A B (mzero k n) D).
+Proof. exact rblq_robust_rule_is_lq_on_DP. Qed.
+Print Assumptions C07_rblq_robust_rule_is_lq_on_DP.
 
 (* ---- the hypotheses are satisfiable: scalar problem Q = R = A = B = Rf = 1, beta = 1/2, T = 2 *)
 Lemma msym_1 (M : list (list Q)) : msym 1 M.
